@@ -17,6 +17,7 @@ import (
 	"github.com/LemoFoundationLtd/lemochain-core/chain/account"
 	"github.com/LemoFoundationLtd/lemochain-core/chain/deputynode"
 	"github.com/LemoFoundationLtd/lemochain-core/chain/params"
+	"github.com/LemoFoundationLtd/lemochain-core/chain/transaction"
 	"github.com/LemoFoundationLtd/lemochain-core/chain/types"
 	"github.com/LemoFoundationLtd/lemochain-core/common"
 	"github.com/LemoFoundationLtd/lemochain-core/common/crypto"
@@ -57,6 +58,10 @@ type ledgerTx struct {
 	tampered  bool // content changed after signing
 	class     string
 	subs      []*ledgerTx
+	// contract creations of the gas sweep: the gas a successful deployment needs (measured by a trial build that is thrown
+	// away), the intrinsic gas and the length of the deployed runtime code (code deposit = 200 gas per byte)
+	need, intrinsic uint64
+	rtLen           int
 }
 
 type ledger struct {
@@ -73,6 +78,9 @@ type ledger struct {
 	byNodeID  map[string]*ecdsa.PrivateKey
 	// the PARENT view of the block being judged, captured BEFORE the block is inserted: in a term with a single deputy the
 	// miner's own signature makes the block stable at once and the parent's account view is gone afterwards
+	// the harness's OWN record of every account's signer list on the main chain (from the ModifySigners txs of the blocks
+	// that were inserted): the C06 oracle never asks the implementation what the registered signers are
+	truth    map[common.Address]types.Signers
 	pvHash   common.Hash
 	pvViews  map[common.Address]acctView
 	pvNodeID map[common.Address]string
@@ -437,12 +445,12 @@ func ledgerEpoch(c *Ctx, mode string, nBlocks int, epoch int) {
 			other = extraNames[rnd.Intn(len(extraNames))]
 		}
 		ok_ := l.key(other)
-		kinds := []string{"transfer", "transfer", "transfer", "overdraft", "vote", "vote", "register", "topup", "unregister", "box", "boxfail", "payer", "payer-unsigned", "wrongkey", "setsigners", "ms-ok", "ms-dup", "ms-mall", "ms-short", "ms-ownkey", "extrasig", "pricey", "zero", "tamper", "tamper-box", "payer-self-forged", "flag", "payer-other-kind", "setsigners-var"}
+		kinds := []string{"transfer", "transfer", "transfer", "overdraft", "vote", "vote", "register", "topup", "unregister", "box", "boxfail", "payer", "payer-unsigned", "wrongkey", "setsigners", "ms-ok", "ms-dup", "ms-mall", "ms-short", "ms-ownkey", "extrasig", "pricey", "zero", "tamper", "tamper-box", "payer-self-forged", "flag", "payer-other-kind", "setsigners-var", "ms-resign"}
 		switch l.mode {
 		case "c11":
 			kinds = []string{"transfer", "transfer", "vote", "vote", "vote", "register", "topup", "unregister", "box", "payer", "flag", "payer-other-kind"}
 		case "c06":
-			kinds = []string{"transfer", "payer", "payer-unsigned", "wrongkey", "setsigners", "ms-ok", "ms-dup", "ms-mall", "ms-short", "ms-ownkey", "ms-ownkey", "extrasig", "tamper", "tamper-box", "payer-self-forged", "box", "setsigners-var", "setsigners-var", "payer-other-kind"}
+			kinds = []string{"transfer", "payer", "payer-unsigned", "wrongkey", "setsigners", "ms-ok", "ms-dup", "ms-mall", "ms-short", "ms-ownkey", "ms-ownkey", "extrasig", "tamper", "tamper-box", "payer-self-forged", "box", "setsigners-var", "setsigners-var", "payer-other-kind", "ms-resign", "ms-resign"}
 		}
 		k := kinds[rnd.Intn(len(kinds))]
 		switch k {
@@ -466,7 +474,7 @@ func ledgerEpoch(c *Ctx, mode string, nBlocks int, epoch int) {
 			k = []string{"asset-create", "asset-create", "asset-issue", "asset-issue", "asset-replenish", "asset-modify", "asset-modify", "asset-transfer", "asset-transfer", "transfer"}[rnd.Intn(10)]
 		}
 		if contractBlock {
-			k = []string{"create-counter", "create-reverter", "create-logger", "create-killer", "create-killer-self", "create-killer-self", "call", "call", "call", "call-value", "call-value", "transfer"}[rnd.Intn(12)]
+			k = []string{"create-counter", "create-reverter", "create-logger", "create-killer", "create-killer-self", "create-killer-self", "create-sweep", "create-sweep", "create-sweep", "call", "call", "call", "call-value", "call-value", "transfer"}[rnd.Intn(15)]
 		}
 		c.Count("gen:" + k)
 		cands := []common.Address{}
@@ -567,6 +575,61 @@ func ledgerEpoch(c *Ctx, mode string, nBlocks int, epoch int) {
 			lt := mk(txVote(uk, cand, TxOpt{Exp: exp(), Msg: u_("pv"), Payer: l.key(other)}), k, u)
 			lt.payerKeys = []string{other}
 			return lt
+		case "ms-resign":
+			// an account that IS multisig replaces its signer list (same length or one shorter: the new list fits the old
+			// slice), authorised by all its registered signers
+			if len(msAccts) > 0 {
+				acct := msAccts[rnd.Intn(len(msAccts))]
+				addr := keyAddr(l.key(acct))
+				regs := l.truth[addr]
+				oldKeys := l.userNamesOf(regs)
+				if len(regs) > 0 && len(oldKeys) == len(regs) {
+					nNew := len(regs)
+					if nNew > 1 && rnd.Intn(2) == 0 {
+						nNew--
+					}
+					var ss types.Signers
+					var keys []string
+					perm := rnd.Perm(len(userNames))
+					for i := 0; i < nNew && i < len(perm); i++ {
+						nm := userNames[perm[i]]
+						wgt := uint8(10)
+						switch {
+						case nNew == 1:
+							wgt = 100
+						case i == 0:
+							wgt = 60
+						case i == 1:
+							wgt = 50
+						}
+						ss = append(ss, types.SignAccount{Address: keyAddr(l.key(nm)), Weight: wgt})
+						keys = append(keys, nm)
+					}
+					data, _ := json.Marshal(struct {
+						Signers types.Signers `json:"signers"`
+					}{ss})
+					tx := types.NewTransaction(addr, addr, new(big.Int), 2000000, oneGwei, data, params.ModifySignersTx, nodeChainID, exp(), "", u_("msr"))
+					stx := tx
+					for _, nm := range oldKeys {
+						stx, _ = types.MakeSigner().SignTx(stx, l.key(nm))
+					}
+					lt := mk(stx, k, oldKeys...)
+					pendingMS[lt.id] = struct {
+						acct string
+						keys []string
+					}{acct, keys}
+					return lt
+				}
+			}
+			k = "setsigners"
+			{
+				lt := mk(txModifySigners(uk, keyAddr(uk), types.Signers{{Address: keyAddr(uk), Weight: 60}, {Address: keyAddr(ok_), Weight: 50}}, TxOpt{Exp: exp(), Msg: u_("ss")}), k, u)
+				pendingMS[lt.id] = struct {
+					acct string
+					keys []string
+				}{u, []string{u, other}}
+				return lt
+			}
 		case "payer-ms-ok", "payer-ms-short":
 			// the GAS PAYER is a multisig account: its registered signers sign the payer part (all of them / only the lightest)
 			if len(msAccts) > 0 {
@@ -757,6 +820,44 @@ func ledgerEpoch(c *Ctx, mode string, nBlocks int, epoch int) {
 			// SELFDESTRUCT to caller
 			rt := []byte{0x33, 0xff}
 			return mk(txCreate(uk, lemo(int64(rnd.Intn(3))), initCodeFor(rt), TxOpt{Exp: exp(), Msg: u_("ck")}), k, u)
+		case "create-sweep":
+			// a creation WITH value whose gas limit is swept around the exact need: need-1 (cannot pay the last gas of the code
+			// deposit), a point inside the deposit range, just above the intrinsic gas, exactly the need, ample.
+			// The need is measured by a trial build on the same parent that is thrown away.
+			rts := [][]byte{
+				{0x60, 0x01, 0x60, 0x00, 0x54, 0x01, 0x60, 0x00, 0x55, 0x00},
+				{0x33, 0xff},
+				{0x60, 0x05, 0x60, 0x00, 0x60, 0x00, 0xa1, 0x33, 0x60, 0x02, 0x55, 0x00},
+				append([]byte{0x00}, make([]byte, 40)...),
+			}
+			rt := rts[rnd.Intn(len(rts))]
+			val := lemo(int64(1 + rnd.Intn(3)))
+			msg := fmt.Sprintf("sw%06d", uniq)
+			uniq++
+			need := l.measureCreate(parent, t, txCreate(uk, val, initCodeFor(rt), TxOpt{Exp: exp(), Msg: msg}))
+			intr, _ := transaction.IntrinsicGas(params.CreateContractTx, initCodeFor(rt), msg)
+			if need == 0 || intr == 0 || need <= intr+uint64(200*len(rt)) {
+				c.Count("create-sweep:need-not-measurable")
+				return mk(txCreate(uk, val, initCodeFor(rt), TxOpt{Exp: exp(), Msg: u_("csw")}), "create-counter", u)
+			}
+			deposit := uint64(200 * len(rt))
+			variant := []string{"need-1", "need-1", "in-deposit-range", "deposit-range-start", "intrinsic+1", "need", "need", "ample"}[rnd.Intn(8)]
+			gl := need
+			switch variant {
+			case "need-1":
+				gl = need - 1
+			case "in-deposit-range":
+				gl = need - 1 - uint64(rnd.Intn(int(deposit)))
+			case "deposit-range-start":
+				gl = need - deposit
+			case "intrinsic+1":
+				gl = intr + 1
+			case "ample":
+				gl = need + uint64(1000+rnd.Intn(100000))
+			}
+			lt := mk(txCreate(uk, val, initCodeFor(rt), TxOpt{Exp: exp(), GasLimit: gl, Msg: msg}), "create-sweep:"+variant, u)
+			lt.need, lt.intrinsic, lt.rtLen = need, intr, len(rt)
+			return lt
 		case "create-killer-self":
 			// SELFDESTRUCT to ITSELF: the endowment (and whatever is sent with the destroying call) is burnt
 			rt := []byte{0x30, 0xff}
@@ -1084,19 +1185,19 @@ func ledgerEpoch(c *Ctx, mode string, nBlocks int, epoch int) {
 			}
 			c.Op(fmt.Sprintf("acct %d %s %s %d %d %s %d %d", l.label(a), v.bal.String(), v.votes.String(), l.label(v.voteFor), v.isCand, dep, l.label(v.income), isDep), "ok")
 		}
-		// signers survive a resync only through setsigners lines: replay them
-		var msNames []string
-		for a := range multisig {
-			msNames = append(msNames, a)
+		// signers survive a resync only through setsigners lines: replay them — from the harness's OWN record of the main
+		// chain's signer lists (never from what the implementation's state says)
+		var tl []common.Address
+		for a := range l.truth {
+			tl = append(tl, a)
 		}
-		sort.Strings(msNames)
-		for _, a := range msNames {
-			regs := l.view(parent.Hash(), keyAddr(l.key(a))).signers
+		sort.Slice(tl, func(i, j int) bool { return l.label(tl[i]) < l.label(tl[j]) })
+		for _, a := range tl {
 			var ss []string
-			for _, r := range regs {
+			for _, r := range l.truth[a] {
 				ss = append(ss, fmt.Sprintf("%d:%d", l.label(r.Address), r.Weight))
 			}
-			c.Op(fmt.Sprintf("signers %d %s", l.label(keyAddr(l.key(a))), strings.Join(append([]string{"-"}, ss...), " ")), "ok")
+			c.Op(fmt.Sprintf("signers %d %s", l.label(a), strings.Join(append([]string{"-"}, ss...), " ")), "ok")
 		}
 	}
 	prevDeputies := ""
@@ -1230,11 +1331,11 @@ func ledgerEpoch(c *Ctx, mode string, nBlocks int, epoch int) {
 				}
 			}
 			mkTxs()
-			if assetBlock && os.Getenv("HX_DEBUG") != "" {
+			if (assetBlock || os.Getenv("HX_DEBUG") == "build") && os.Getenv("HX_DEBUG") != "" {
 				log.Setup(log.LevelInfo, false, true)
 			}
-			b, invalid, rec, err := l.buildRec(parent, t, txs, k, blockGas)
-			if assetBlock && os.Getenv("HX_DEBUG") != "" {
+			b, invalid, rec, err := l.buildJudged(parent, t, txs, k, blockGas)
+			if (assetBlock || os.Getenv("HX_DEBUG") == "build") && os.Getenv("HX_DEBUG") != "" {
 				log.Setup(log.LevelCrit, false, false)
 			}
 			if err != nil {
@@ -1247,9 +1348,42 @@ func ledgerEpoch(c *Ctx, mode string, nBlocks int, epoch int) {
 				c.Count("snapshot:deputies-not-loadable:re-mined-empty")
 				cand, txLines = nil, nil
 				mkTxs()
-				b, invalid, rec, err = l.buildRec(parent, t, txs, k, blockGas)
+				b, invalid, rec, err = l.buildJudged(parent, t, txs, k, blockGas)
 				if err != nil {
 					return "builderr " + err.Error()
+				}
+			}
+			// ABANDONED execution: the miner built a block that changes an account's signer list — and the block is thrown
+			// away (lost slot). Another block is mined on the same parent instead: a spend of that account signed by the signers
+			// the chain REGISTERED (must be executed) and one signed by the signers of the never-committed list (must not).
+			// The model never hears of the abandoned block.
+			if modelled && !isSnapshot && !isReward && mode != "c11" && err == nil && rnd.Intn(2) == 0 {
+				if repl := l.afterAbandoned(b, exp(), mk); repl != nil {
+					c.Count("abandoned:block-with-signer-change-thrown-away")
+					cand = repl
+					txLines = nil
+					for _, lt := range cand {
+						txLines = append(txLines, l.txLine("tx", lt))
+					}
+					mkTxs()
+					b, invalid, rec, err = l.buildJudged(parent, t, txs, k, blockGas)
+					if err != nil {
+						return "builderr " + err.Error()
+					}
+					sel := map[int]bool{}
+					for _, tx := range b.Txs {
+						sel[byHashID(byHash, tx)] = true
+					}
+					for _, lt := range cand {
+						switch {
+						case lt.class == "spend-by-registered-signers" && !sel[lt.id]:
+							c.Fail("c06/authorised-refused/after-abandoned-execution", fmt.Sprintf("block %d: a tx of multisig account %d signed by ALL its registered signers is refused after a block that changed the signer list was built on the same parent and thrown away", height, l.label(lt.tx.From())), nil)
+						case lt.class == "spend-by-registered-signers":
+							c.Count("abandoned:spend-by-registered-signers-executed")
+						case lt.class == "spend-by-abandoned-signers" && !sel[lt.id]:
+							c.Count("abandoned:spend-by-abandoned-signers-refused")
+						}
+					}
 				}
 			}
 			if isSnapshot && (len(b.DeputyNodes) == 0 || !deputiesLoadable(b)) {
@@ -1388,6 +1522,12 @@ func ledgerEpoch(c *Ctx, mode string, nBlocks int, epoch int) {
 					c.Count("nodeB:reopen")
 				}
 			}
+			// SIBLINGS: b changed an account's signer list; a second block on the same parent changes it DIFFERENTLY and is
+			// inserted too; a child mined on that sibling must obey the sibling's list, not b's (nor the parent's)
+			if modelled && mode != "c11" && mode != "c01" && n.BC.StableBlock().Hash() != b.Hash() && rnd.Intn(2) == 0 {
+				l.siblingBranch(parent, b, t, exp())
+			}
+			l.commitSigners(b)
 			// ground truth update for multisig accounts
 			for _, tx := range b.Txs {
 				if lt := byHash[tx.Hash()]; lt != nil {
@@ -1793,7 +1933,7 @@ func (l *ledger) oracles(b *types.Block, invalid types.Transactions, byHash map[
 		if s, ok := curSigners[a]; ok {
 			return s
 		}
-		return l.view(b.ParentHash(), a).signers
+		return l.truth[a] // the harness's own record — NOT what the implementation says the parent state holds
 	}
 	// distinct-signer weight of the keys that REALLY signed, against a signer list
 	weightOfKeys := func(keys []string, regs types.Signers) int {
